@@ -149,6 +149,30 @@ def run_check(pid, tier, seed=0):
     lines = []
     exit_code = 0
     try:
+        # validation of the environment models this property relies on (translator self-test)
+        st_res = {}
+        if spec.get('selftest'):
+            from . import selftest
+            try:
+                if 'growcap' in spec['selftest'] or 'f2i' in spec['selftest']:
+                    probe, perr = selftest.native_probe(scratch)
+                    if probe is None:
+                        st_res['native_probe'] = {'mismatches': 1, 'first': perr[-300:]}
+                    else:
+                        if 'growcap' in spec['selftest']:
+                            n, bad = selftest.check_growcap(probe)
+                            st_res['growcap'] = {'cases': n, 'mismatches': len(bad), 'first': str(bad[:2])}
+                        if 'f2i' in spec['selftest']:
+                            n, bad = selftest.check_f2i(probe)
+                            st_res['f2i'] = {'cases': n, 'mismatches': len(bad), 'first': str(bad[:2])}
+                if 'intfloat' in spec['selftest']:
+                    n, bad = selftest.check_intfloat(seed=seed or 1, n=600 if tier == 'quick' else 4000)
+                    st_res['intfloat'] = {'cases': n, 'mismatches': len(bad), 'first': str(bad[:2])}
+            except Exception as e:
+                st_res['error'] = {'mismatches': 1, 'first': str(e)[:300]}
+            for k, v in st_res.items():
+                if v.get('mismatches'):
+                    lines.append('INCONCLUSIVE property=%s translator self-test %s disagrees with the native toolchain: %s' % (pid, k, v.get('first')))
         # entry list
         jobs_spec = proptable.jobs(pid, tier)
         names = sorted({j['entry'] for j in jobs_spec})
@@ -328,7 +352,7 @@ def run_check(pid, tier, seed=0):
             lines.append('VACUOUS property=%s harness=%s cover %s not reached' % (pid, e, c))
         wall = time.time() - t_start
         write_evidence(pid, tier, seed, spec, ir, results, confirmed, unconfirmed, wall, known_hits=known_hits,
-                       fe_time=fe_time, vacuous=vac, missing=missing, validated=validated, mismatches=mismatches, notcomparable=notcomparable, violations=sum(viol_count.values()))
+                       fe_time=fe_time, vacuous=vac, missing=missing, selftest=st_res, validated=validated, mismatches=mismatches, notcomparable=notcomparable, violations=sum(viol_count.values()))
         tot_paths = sum(r['paths'] for r in results)
         tot_q = sum(r.get('solver', {}).get('queries', 0) for r in results)
         lines.append('property=%s tier=%s harness-instantiations=%d paths=%d solver-queries=%d wall=%.1fs exit=%d' % (
@@ -340,7 +364,7 @@ def run_check(pid, tier, seed=0):
 
 
 def write_evidence(pid, tier, seed, spec, ir, results, confirmed, unconfirmed, wall, known_hits=(), fe_time=0.0,
-                   vacuous=(), missing=(), note=None, violations=0, validated=0, mismatches=(), notcomparable=0):
+                   vacuous=(), missing=(), note=None, violations=0, validated=0, mismatches=(), notcomparable=0, selftest=None):
     from . import stubs
     states = sum(r['paths'] for r in results)
     trans = sum(r['instrs'] for r in results)
@@ -371,7 +395,8 @@ def write_evidence(pid, tier, seed, spec, ir, results, confirmed, unconfirmed, w
         'property_id': pid, 'tier': tier, 'seed': seed, 'level': 'model_checking',
         'coverage': {
             'states': max(states, 0), 'transitions': max(trans, 0),
-            'traces_validated_against_impl': validated + len(confirmed),
+            'traces_validated_against_impl': validated + len(confirmed) + sum(v.get('cases', 0) for v in (selftest or {}).values() if not v.get('mismatches')),
+            'translator_selftest': selftest or {},
             'path_witnesses': {'agreed_with_native_run': validated, 'mismatches': list(mismatches)[:10], 'not_comparable': notcomparable,
                                'rule': 'for up to 2 completed symbolic paths per harness instantiation the solver produces a concrete input of that path; the natively compiled harness must finish without a failed assertion and reach exactly the same Cover labels'},
             'samples': samples,
